@@ -53,7 +53,7 @@ var c10Ops = []string{"open-bg", "open-wait", "close", "send-w", "send", "send-a
 var c10PeerOps = []string{"serve", "serve", "connect-only", "drop", "reset", "stall", "refuse", "late-connect", "pause"}
 
 func c10Worker(env *fw.Env) {
-	total := int64(env.Pick(144, 4000))
+	total := int64(env.Pick(360, 4000))
 	for i := int64(0); i < total; i++ {
 		if !env.Mine(i) || !env.Want(i) {
 			continue
